@@ -178,28 +178,37 @@ class ExportImport:
                 # and remember the name
                 blob_len = u64(f.read(8))
                 blob_filename = mktemp(self._storage.temporaryDirectory())
-                blob_file = open(blob_filename, "wb")
-                cp(f, blob_file, blob_len)
-                blob_file.close()
             else:
                 blob_filename = None
 
-            pfile = BytesIO(data)
-            unpickler = Unpickler(pfile)
-            unpickler.persistent_load = persistent_load
+            try:
+                if blob_filename is not None:
+                    with open(blob_filename, "wb") as blob_file:
+                        cp(f, blob_file, blob_len)
 
-            newp = BytesIO()
-            pickler = PersistentPickler(persistent_id, newp, _protocol)
+                pfile = BytesIO(data)
+                unpickler = Unpickler(pfile)
+                unpickler.persistent_load = persistent_load
 
-            pickler.dump(unpickler.load())
-            pickler.dump(unpickler.load())
-            data = newp.getvalue()
+                newp = BytesIO()
+                pickler = PersistentPickler(persistent_id, newp, _protocol)
 
-            if blob_filename is not None:
-                self._storage.storeBlob(oid, None, data, blob_filename,
-                                        '', transaction)
-            else:
-                self._storage.store(oid, None, data, '', transaction)
+                pickler.dump(unpickler.load())
+                pickler.dump(unpickler.load())
+                data = newp.getvalue()
+
+                if blob_filename is not None:
+                    self._storage.storeBlob(oid, None, data, blob_filename,
+                                            '', transaction)
+                else:
+                    self._storage.store(oid, None, data, '', transaction)
+            except BaseException:
+                # Don't leave the blob data behind in the storage's
+                # temporary directory.
+                if (blob_filename is not None and
+                        os.path.exists(blob_filename)):
+                    os.remove(blob_filename)
+                raise
 
 
 export_end_marker = b'\377' * 16
